@@ -808,3 +808,99 @@ Proof.
   { intros hr. text_auto. }
   intros hr h3 _ G3. apply dok_pop_ret. exact G3.
 Qed.
+
+Lemma good_root_cell : forall F h, good F h -> In O F -> exists c, findw h root = Some c /\ w_isroot c = true.
+Proof.
+  intros F h G Hin. destruct (framed_cell F h root G Hin) as [c Hc]. exists c. split; [exact Hc|].
+  destruct G as (g & _ & HI & _). rewrite (hi_isroot [] h HI root c Hc). apply Pos.eqb_refl.
+Qed.
+
+Lemma text_frame_run : forall f o, text (frame_run f o).
+Proof. intros f o. destruct o; cbn [frame_run]; text_auto. Qed.
+
+Lemma step_otm : forall f, S_all f -> forall t F h, good F h -> findw h root <> None -> t <> MDrag ->
+  dok F (on_term_mouse fixed (S f) t h).
+Proof.
+  intros f (_ & _ & _ & _ & _ & _ & S7 & _) t F h G Hl Hnd. rewrite on_term_mouse_F. cbv zeta. cbn [v_events_asis fixed].
+  change (log_op (OFrameRef 1%positive) ;;; window_ref 1%positive) with (frame_run f (OFrameRef root)).
+  change (log_op (OFrameUnref 1%positive) ;;; unref fixed f 1%positive) with (frame_run f (OFrameUnref root)).
+  change 1%positive with root.
+  destruct (good_root_framed F h G Hl) as (c & Hc & Hpar).
+  unfold bind at 1. pose proof (good_push f F h root c G Hc Hpar) as Hpush.
+  destruct (frame_run f (OFrameRef root) h) as [u h1| |]; [|contradiction|exact I].
+  change (idx root) with O in Hpush. set (F' := O :: F) in *.
+  assert (Hin : In O F') by (left; reflexivity).
+  assert (Hin' : In (idx root) F') by (left; reflexivity).
+  destruct (good_root_cell F' h1 Hpush Hin) as (c1 & Hc1 & Hr1).
+  unfold bind at 1. rewrite (getr_run h1 root c1 Hc1 Hr1).
+  (* what remains after the part that depends on the event type *)
+  assert (Hrest : forall h2, good F' h2 ->
+            dok F ((handled <- handle_mouse fixed f root t true false ;;
+                    (match t with
+                     | MDrag =>
+                       r2 <- getr root ;;
+                       match r_drag r2 with
+                       | Some (Some d) =>
+                         if negb (ptr_eqb handled (Some d))
+                         then abs_geometry f d ;;; (cd <- getw d ;; count_up f (w_parent cd) ;;; cd' <- getw d ;;
+                              held <- ref_up fixed f (w_parent cd') ;; handle_mouse fixed f d MDragOutside true false ;;; unref_list fixed f held)
+                         else ret tt
+                       | _ => ret tt
+                       end
+                     | _ => ret tt
+                     end) ;;; frame_run f (OFrameUnref root)) h2)).
+  { intros h2 G2. destruct (good_root_cell F' h2 G2 Hin) as (c2 & Hc2 & _).
+    eapply (dok_bind F' F).
+    - apply S7; [exact G2|]. apply good_root_framed; [exact G2|congruence].
+    - intros r. destruct t; try congruence; (apply text_bind; [apply text_ret|]; intros _; apply text_frame_run).
+    - intros handled h3 _ G3.
+      assert (Hpop : dok F (frame_run f (OFrameUnref root) h3)).
+      { pose proof (good_pop f F h3 root G3) as H. unfold dok. destruct (frame_run f (OFrameUnref root) h3); auto; contradiction. }
+      destruct t; try congruence; unfold bind at 1; cbn [ret]; exact Hpop. }
+  assert (Hmid : forall (m : M unit), text m -> dok F' (m h1) ->
+            dok F ((m ;;; handled <- handle_mouse fixed f root t true false ;;
+                    (match t with
+                     | MDrag =>
+                       r2 <- getr root ;;
+                       match r_drag r2 with
+                       | Some (Some d) =>
+                         if negb (ptr_eqb handled (Some d))
+                         then abs_geometry f d ;;; (cd <- getw d ;; count_up f (w_parent cd) ;;; cd' <- getw d ;;
+                              held <- ref_up fixed f (w_parent cd') ;; handle_mouse fixed f d MDragOutside true false ;;; unref_list fixed f held)
+                         else ret tt
+                       | _ => ret tt
+                       end
+                     | _ => ret tt
+                     end) ;;; frame_run f (OFrameUnref root)) h1)).
+  { intros m Tm Hm. eapply (dok_bind F' F); [exact Hm| |].
+    - intros _. apply text_bind; [auto|]. intros r. destruct t; try congruence; (apply text_bind; [apply text_ret|]; intros _; apply text_frame_run).
+    - intros _ h2 _ G2. apply Hrest. exact G2. }
+  destruct t; try congruence.
+  - (* press *)
+    apply Hmid; [apply ktr_text; auto with ktr|]. rewrite (setr_run h1 root c1 _ Hc1 Hr1). right.
+    apply good_rx; [exact Hpush|reflexivity|reflexivity].
+  - (* release *)
+    destruct (r_dragging (rx h1)).
+    + apply Hmid.
+      * apply text_bind; [auto|]. intros _. apply text_bind; [apply ktr_text; auto with ktr|]. intros r1.
+        apply text_bind; [|intros _; apply ktr_text; auto with ktr].
+        destruct (r_drag r1) as [[d|]|]; [|apply text_ret|apply ktr_text; auto with ktr].
+        apply text_bind; [apply ktr_text; auto with ktr|]. intros _. text_auto; apply (text_all f).
+      * eapply (dok_bind F' F').
+        -- apply S7; [exact Hpush|]. apply good_root_framed; [exact Hpush|congruence].
+        -- intros _. apply text_bind; [apply ktr_text; auto with ktr|]. intros r1.
+           apply text_bind; [|intros _; apply ktr_text; auto with ktr].
+           destruct (r_drag r1) as [[d|]|]; [|apply text_ret|apply ktr_text; auto with ktr].
+           apply text_bind; [apply ktr_text; auto with ktr|]. intros _. text_auto; apply (text_all f).
+        -- intros _ h2 _ G2. destruct (good_root_cell F' h2 G2 Hin) as (c2 & Hc2 & Hr2).
+           unfold bind at 1. rewrite (getr_run h2 root c2 Hc2 Hr2).
+           assert (Hd : r_drag (rx h2) = Some None) by (destruct G2 as (g & _ & HI & _); exact (hi_drag [] h2 HI)).
+           rewrite Hd. unfold bind at 1. cbn [ret]. rewrite (updr_run h2 root c2 _ Hc2 Hr2). right.
+           apply good_rx; [exact G2|reflexivity|reflexivity].
+    + apply Hmid; [apply text_ret|]. apply dok_ret. exact Hpush.
+  - apply Hmid; [apply text_ret|]. apply dok_ret. exact Hpush.
+  - apply Hmid; [apply text_ret|]. apply dok_ret. exact Hpush.
+  - apply Hmid; [apply text_ret|]. apply dok_ret. exact Hpush.
+  - apply Hmid; [apply text_ret|]. apply dok_ret. exact Hpush.
+  - apply Hmid; [apply text_ret|]. apply dok_ret. exact Hpush.
+Qed.
